@@ -311,12 +311,29 @@ def needs_sep(a, b):
     return False
 
 
+SAFE_WS = [" ", "  ", "\t", "\n", "\r\n", "\n\n", " \n ", "\n\t"]
+
+
 def gen_trivia(rng, style, must):
-    """a trivia string (whitespace / comments). style: 'min' | 'space' | 'wild'"""
+    """a trivia string (whitespace / comments). style: 'min' | 'space' | 'wild' | 'safe'
+    ('safe': ASCII whitespace and ordinary comments whose text has no '/' or '*': the class of C18's quantifier)"""
     if style == "min":
         return " " if must else ""
     if style == "space":
         return " "
+    if style == "safe":
+        out = ""
+        for _ in range(rng.choice([0, 1, 1, 2, 3])):
+            r = rng.random()
+            if r < 0.6:
+                out += rng.choice(SAFE_WS)
+            elif r < 0.8:
+                out += "/*" + rng.choice(["", " c ", "x;y{}", " \u00e9\u65e5\u672c ", "\n multi\n line ", " @x "]) + "*/"
+            else:
+                out += "//" + rng.choice(["", " c", " x;y{}", " \u00e9\U0001f600", " @tag"]) + rng.choice(["\n", "\r\n", "\n\n"])
+        if must and out == "":
+            out = rng.choice(SAFE_WS)
+        return out
     out = ""
     n = rng.choice([0, 1, 1, 1, 2, 3])
     for _ in range(n):
@@ -335,7 +352,7 @@ def gen_trivia(rng, style, must):
 def render(toks, rng=None, style="space"):
     """text + the byte span of every token"""
     rng = rng or random.Random(0)
-    text = gen_trivia(rng, style, False) if style == "wild" else ""
+    text = gen_trivia(rng, style, False) if style in ("wild", "safe") else ""
     spans = []
     prev = ""
     for i, t in enumerate(toks):
@@ -348,7 +365,7 @@ def render(toks, rng=None, style="space"):
         text += t.text
         spans.append((start, len(text.encode("utf-8"))))
         prev = t.text
-    if style == "wild":
+    if style in ("wild", "safe"):
         text += gen_trivia(rng, style, False)
     return text, spans
 
